@@ -2,7 +2,7 @@
 //! `ExecutionStatuses::describe`) and C07 (`BackoffIter`).
 use nextest_runner::config::RetryPolicy;
 use nextest_runner::reporter::events::{AbortStatus, ExecutionResult};
-use nextest_runner::runner::verif_exec::{backoff_delays, classify};
+use nextest_runner::runner::verif_exec::{backoff_delays, classify, describe};
 use std::collections::BTreeMap;
 use std::io::Write;
 use std::time::Duration;
@@ -42,6 +42,21 @@ fn main() {
         } } }
     }
     *dist.entry("classify:exhaustive".into()).or_insert(0) += 256 * 4 + 64 * 8;
+    // describe: exhaustive over every sequence of 1..=4 attempt results over the 7 result shapes
+    let alphabet: Vec<(ExecutionResult, &str)> = vec![
+        (ExecutionResult::Pass, "P"), (ExecutionResult::Leak, "L"), (ExecutionResult::Fail { abort_status: None, leaked: false }, "F"),
+        (ExecutionResult::Fail { abort_status: None, leaked: true }, "Fl"), (ExecutionResult::Fail { abort_status: Some(AbortStatus::UnixSignal(9)), leaked: false }, "FS9"),
+        (ExecutionResult::ExecFail, "X"), (ExecutionResult::Timeout, "T")];
+    for len in 1..=4usize {
+        let total = alphabet.len().pow(len as u32);
+        for code in 0..total {
+            let mut c = code; let mut rs = Vec::new(); let mut names = Vec::new();
+            for _ in 0..len { let (r, n) = &alphabet[c % alphabet.len()]; rs.push(*r); names.push(*n); c /= alphabet.len(); }
+            let d = match describe(rs) { "success" => "Success", "flaky" => "Flaky", _ => "Failure" };
+            writeln!(out, "describe {}\t{}", names.join(","), d).unwrap();
+        }
+    }
+    *dist.entry("describe:exhaustive-len<=4".into()).or_insert(0) += 7 + 49 + 343 + 2401;
     // backoff
     for _ in 0..n {
         let count = rng.below(9) as usize;
